@@ -166,34 +166,35 @@ class OutAdj(MTerm):
 @register
 class AdjointCat(Contract):
     """adjoint_cat(..., out_adj, name, parts, part_name): every part receives the adjoint restricted to ITS OWN interval of the
-    concatenated input: part k gets out_adj(name=Slice(name, off_k, off_k + n_k, 1, total)) with off_k the sum of the
-    earlier parts' sizes -- the intervals tile [0, total) in order; if the adjoint does not depend on the part name every
-    part receives it unchanged. structure bound: <= 4 parts; sizes symbolic."""
+    concatenated input, expressed over the part's own input name: part k gets out_adj(name=Slice(part_name, off_k,
+    off_k + n_k, 1, total)) with off_k the sum of the earlier parts' sizes -- the intervals tile [0, total) in order; if the
+    adjoint does not depend on the Cat's name every part receives it unchanged (name and part_name may differ). structure bound: <= 4 parts; sizes symbolic."""
 
     props = ("C11",)
     file = "funsor/adjoint.py"
     qualname = "adjoint_cat"
     total = True
-    mutants = (("start not advanced", "start += part.inputs[part_name].dtype", "start += 0"), ("interval one too long", "start + part.inputs[part_name].dtype, 1, size)", "start + part.inputs[part_name].dtype + 1, 1, size)"))
+    mutants = (("tests the part name instead of the Cat's name (the pinned-tree defect)", "if name not in out_adj.inputs:", "if part_name not in out_adj.inputs:"), ("start not advanced", "start += part.inputs[part_name].dtype", "start += 0"), ("interval one too long", "part_name, start, start + part.inputs[part_name].dtype, 1, size", "part_name, start, start + part.inputs[part_name].dtype + 1, 1, size"))
 
     def structures(self, tier):
         for n in (1, 2, 3, 4):
             for dep in (True, False):
-                yield "parts=%d,adjoint_depends_on_part_name=%s" % (n, dep), (n, dep)
+                for pn in ("t", "p"):
+                    yield "parts=%d,adjoint_depends_on_cat_name=%s,part_name=%s" % (n, dep, pn), (n, dep, pn)
 
     def build(self, p, st):
-        n, dep = st
+        n, dep, pn = st
         szs = []
         for k in range(n):
             s = p.fresh_int("n%d" % k)
             p.assume(s >= 1)
             szs.append(s)
-        parts = tuple(PartA(k, s, "t") for k, s in enumerate(szs))
-        out_adj = OutAdj([("t", MDom(sum(szs), ()))] if dep else [("u", MDom(3, ()))])
-        return Ctx(args=("sum", "prod", out_adj, "t", parts, "t"), namespace={"Slice": SliceM, "sum": core.ssum, "enumerate": enumerate}, parts=parts, szs=szs, out_adj=out_adj, st=st)
+        parts = tuple(PartA(k, s, pn) for k, s in enumerate(szs))
+        out_adj = OutAdj([("t", MDom(sum(szs), ()))] if dep else [("u", MDom(3, ())), (pn + "x", MDom(2, ()))])
+        return Ctx(args=("sum", "prod", out_adj, "t", parts, pn), namespace={"Slice": SliceM, "sum": core.ssum, "enumerate": enumerate}, parts=parts, szs=szs, out_adj=out_adj, st=st)
 
     def ensures(self, ctx, result):
-        n, dep = ctx.st
+        n, dep, pn = ctx.st
         if not dep:
             return [("unchanged_adjoint_for_every_part", isinstance(result, tuple) and len(result) == n and all(r[0] is q and r[1] is ctx.out_adj for r, q in zip(result, ctx.parts)))]
         total = sum(ctx.szs)
@@ -203,7 +204,7 @@ class AdjointCat(Contract):
             return [("one_adjoint_per_part", False)]
         off = 0
         for k, (r, q) in enumerate(zip(result, ctx.parts)):
-            shape_ok = r[0] is q and isinstance(r[1], tuple) and r[1][0] == "restricted" and r[1][1] is ctx.out_adj and len(r[1][2]) == 1 and r[1][2][0][0] == "t" and isinstance(r[1][2][0][1], SliceM)
+            shape_ok = r[0] is q and isinstance(r[1], tuple) and r[1][0] == "restricted" and r[1][1] is ctx.out_adj and len(r[1][2]) == 1 and r[1][2][0][0] == "t" and isinstance(r[1][2][0][1], SliceM) and r[1][2][0][1].name == pn
             if not shape_ok:
                 return [("part%d_gets_a_slice_of_the_adjoint" % k, False)]
             sl = r[1][2][0][1]
